@@ -329,7 +329,7 @@ func runC14(p *eng.Prog, r *eng.Report, tier string) {
 	c14Handler(c)
 	c14Routers(c)
 	c14Options(c)
-	c14OwnAttrs(c)
+	c14OwnAttrs(c, "C14.6")
 	typedAttrsThroughOwnDecoder(c, "C14.7")
 	c14TrimmerFiltersEveryToken(c, "C14.8")
 	c07Fallback(c)
@@ -856,10 +856,10 @@ func c14Options(c *cx) {
 // and NewPresence every assignment to one of these fields inside the attribute
 // loop is dominated by "the attribute is unqualified or in the stanza's own
 // namespace" (a foreign x:type must not select the handler).
-func c14OwnAttrs(c *cx) {
+func c14OwnAttrs(c *cx, id string) {
 	n := 0
 	for _, name := range []string{"NewIQ", "NewMessage", "NewPresence"} {
-		f := c.fn("C14.6", "stanza", name)
+		f := c.fn(id, "stanza", name)
 		if f == nil {
 			continue
 		}
@@ -905,7 +905,7 @@ func c14OwnAttrs(c *cx) {
 			n++
 			pt, ok := g.Where(w.stmt)
 			if !ok {
-				c.r.Check("C14.6", f, "stanza field "+sel.Sel.Name+" taken from an attribute", "site located", w.stmt.Pos(), false, "statement not in the graph")
+				c.r.Check(id, f, "stanza field "+sel.Sel.Name+" taken from an attribute", "site located", w.stmt.Pos(), false, "statement not in the graph")
 				continue
 			}
 			// an attribute qualified with the element's namespace (c:type with
@@ -918,10 +918,10 @@ func c14OwnAttrs(c *cx) {
 				`eq(rangeval(p0.Attr).Name.Space,"")`,
 			}
 			okd, why := g.DominatedAny(pt, pats)
-			c.r.Check("C14.6", f, "stanza field "+sel.Sel.Name+" taken from an attribute", "G: the assignment is dominated by 'the attribute is unqualified' (x:type of any namespace, the element's own included, is not the stanza's type)", w.stmt.Pos(), okd, why)
+			c.r.Check(id, f, "stanza field "+sel.Sel.Name+" taken from an attribute", "G: the assignment is dominated by 'the attribute is unqualified' (x:type of any namespace, the element's own included, is not the stanza's type)", w.stmt.Pos(), okd, why)
 		}
 	}
-	c.r.Floor("C14.6", "attribute-derived stanza fields", n, 12)
+	c.r.Floor(id, "attribute-derived stanza fields", n, 12)
 }
 
 // typedAttrsThroughOwnDecoder (C14.7/C13.18, sibling agreement): the
